@@ -17,6 +17,8 @@ PRIMS = ('transfer', '_transfer', '_transfer_slice')
 def run(ctx):
     symmetric_update(ctx)
     n = result_threading(ctx)
+    from .c08 import writeback_origin
+    writeback_origin(ctx, 'C01.R2')
     floor(ctx, 'call sites of pairwise transfer primitives', n, 10)
     writeback_locality(ctx)
     ownership(ctx)
